@@ -522,3 +522,144 @@ func checkGeneratorsUsed(c *Ctx, f *FC) {
 		r.Undecided("C02.c2", "-", "sites", "fc", sprintf("%d generator parameters found; at least 10 were confirmed by hand", n))
 	}
 }
+
+// C02.c3 — a fresh type variable is drawn per element, not once for a whole list.
+// Where the types of several binders (the names of a destructuring let, parameters, type parameters) are produced by
+// mapping over the list of names, the generator must be applied inside the mapped function.  A partial application
+// `slice.Map (f (gen ())) names` evaluates `gen ()` once (fc's closures evaluate supplied arguments at each call, but
+// the *normal form* shows where the source put the application): every element then shares one inference variable
+// and the components of `let (a, b) = p` are forced to one type.
+func checkFreshPerElement(c *Ctx, f *FC) {
+	r := c.R
+	info := f.M.Main().TypesInfo
+	isTV := func(t types.Type) bool {
+		n, ok := t.(*types.Named)
+		return ok && n.Obj().Name() == "TypeVar" && n.Obj().Pkg() != nil && n.Obj().Pkg().Path() == f.Path
+	}
+	isGen := func(t types.Type) bool {
+		sig, ok := t.Underlying().(*types.Signature)
+		return ok && sig.Params().Len() == 0 && sig.Results().Len() == 1 && isTV(sig.Results().At(0).Type())
+	}
+	// drawing functions: they apply a generator parameter in their own body, outside any lambda
+	drawing := map[string]bool{}
+	for _, fn := range f.Prog.Funcs {
+		for i, p := range fn.Params {
+			if !isGen(p.Type()) {
+				continue
+			}
+			found := false
+			ir.WalkFunc(fn, func(t ir.Term) bool {
+				if _, isLam := t.(*ir.Lam); isLam {
+					return false
+				}
+				if app, ok := t.(*ir.App); ok && len(app.Args) == 0 {
+					if pr, ok := app.Fun.(*ir.Param); ok && pr.Idx == i {
+						found = true
+					}
+				}
+				return !found
+			})
+			if found {
+				drawing[fn.Key] = true
+			}
+		}
+	}
+	draws := func(t ir.Term) bool {
+		found := false
+		ir.Walk(t, func(x ir.Term) bool {
+			if _, isLam := x.(*ir.Lam); isLam {
+				return false // inside a lambda the application happens per call
+			}
+			if app, ok := x.(*ir.App); ok {
+				if len(app.Args) == 0 && app.Call != nil && isTV(info.TypeOf(app.Call)) {
+					found = true
+				}
+				if fr, ok := app.Fun.(*ir.FuncRef); ok && drawing[fr.Key] {
+					found = true
+				}
+			}
+			return !found
+		})
+		return found
+	}
+	mentions := func(t ir.Term, v *types.Var) bool {
+		found := false
+		ir.Walk(t, func(x ir.Term) bool {
+			if lc, ok := x.(*ir.Local); ok && lc.Obj == v {
+				found = true
+			}
+			return !found
+		})
+		return found
+	}
+	sites, maps := 0, 0
+	for _, fn := range f.Prog.Funcs {
+		if !fn.Generated {
+			continue
+		}
+		fn := fn
+		// variables holding something drawn once, and let-bound function values
+		once := map[*types.Var]ir.Term{}
+		fvals := map[*types.Var]ir.Term{}
+		ir.EachBlock(fn, func(b *ir.Block) {
+			for _, st := range b.Stmts {
+				let, ok := st.(*ir.Let)
+				if !ok || len(let.Vars) != 1 || let.Vars[0] == nil {
+					continue
+				}
+				switch let.Val.(type) {
+				case *ir.Lam, *ir.PApp:
+					fvals[let.Vars[0]] = let.Val
+				}
+				if draws(let.Val) {
+					once[let.Vars[0]] = let.Val
+				}
+			}
+		})
+		n := 0
+		ir.WalkFunc(fn, func(t ir.Term) bool {
+			app, ok := t.(*ir.App)
+			if !ok || len(app.Args) != 2 {
+				return true
+			}
+			fr, ok := app.Fun.(*ir.FuncRef)
+			if !ok || (fr.Key != slicePath+".Map" && fr.Key != slicePath+".Mapi" && fr.Key != slicePath+".Collect") {
+				return true
+			}
+			maps++
+			fv := app.Args[0]
+			if lc, ok := fv.(*ir.Local); ok {
+				if v, ok := fvals[lc.Obj]; ok {
+					fv = v
+				}
+			}
+			// a partial application that itself draws in a supplied argument
+			if pa, ok := fv.(*ir.PApp); ok {
+				for _, a := range pa.First {
+					if draws(a) {
+						n++
+						sites++
+						r.Bad("C02.c3", fn.Name, sprintf("shared-variable#%d", n), c.Pos(f.M.Fset, fn.Decl.Pos()),
+							"a fresh type variable is drawn in the supplied argument "+short(ir.String(f.Path, a), 80)+" of the function mapped over "+short(ir.String(f.Path, app.Args[1]), 60)+": the source asks for one variable shared by every element")
+					}
+				}
+			}
+			for v, val := range once {
+				if mentions(fv, v) {
+					n++
+					sites++
+					r.Bad("C02.c3", fn.Name, sprintf("shared-variable#%d", n), c.Pos(f.M.Fset, fn.Decl.Pos()),
+						"the variable "+v.Name()+" holds a type variable drawn once ("+short(ir.String(f.Path, val), 80)+") and is used inside the function mapped over "+short(ir.String(f.Path, app.Args[1]), 60)+": every element shares that one inference variable, so the element types are unified with each other (the components of `let (a, b) = p` get one type)")
+				}
+			}
+			return true
+		})
+	}
+	r.Unit("maps_examined_for_shared_variables", maps)
+	if sites == 0 {
+		r.OK("C02.c3", "fc", "no-shared-variable", "fc", sprintf("%d applications of slice.Map/Mapi/Collect examined: no mapped function uses a type variable that was drawn once outside it", maps))
+	}
+	if maps < 100 {
+		r.Undecided("C02.c3", "-", "sites", "fc", sprintf("only %d applications of slice.Map/Mapi/Collect found in fc", maps))
+	}
+}
